@@ -212,7 +212,8 @@ def gen_history(rng, spec, roots, refs, opts):
                 else:
                     steps.append({'op': 'value', 'chain': c2, 'task': rng.choice(names), 'ri': live[c2], 'twice': rng.random() < 0.1})
                 if opts.get('inspect_after_run') and steps[-1]['op'] in ('value', 'force', 'disarm') and rng.random() < opts['inspect_after_run']:
-                    steps.append({'op': 'inspect', 'chain': rng.choice(list(live)), 'what': rng.choice(opts['inspect_kinds'])})
+                    # mostly through the chain that was just used (records are read again and again through the same task objects)
+                    steps.append({'op': 'inspect', 'chain': c2 if rng.random() < 0.7 else rng.choice(list(live)), 'what': rng.choice(opts['inspect_kinds'])})
             steps.append({'op': 'snapshot', 'chain': c, 'light': True, 'ri': ri})
         spawn = rng.random() < opts.get('p_spawn', 0.15)
         sessions.append({'spawn': spawn, 'hashseed': rng.randrange(1, 10 ** 6) if spawn else None, 'steps': steps})
@@ -652,7 +653,7 @@ def check_records(what, o, ch, ref, refs, latest, model, add, here, counters):
                 continue
             wref = refs[lr['ri']]
             wt = wref.tasks.get(lr['task']) or next((x for x in wref.tasks.values() if x['slug'] == lr['slug'] and x['key'] == lr['key']), None)
-            exp_log = [{'lab_uid': lr['uid'], 'n': 1}, {'lab_uid': lr['uid'], 'n': 2}]
+            exp_log = [{'lab_uid': lr['uid'], 'n': 1}, {'lab_uid': lr['uid'], 'done': 1}, {'lab_uid': lr['uid'], 'done': 2, 'more': 5}, {'lab_uid': lr['uid'], 'n': 2}]
             if info.get('log') != exp_log:
                 add('C18', 'run_info_log', f'{here}: run info of {n} holds records {info.get("log")}, the latest run of this location added {exp_log}')
             tk = info.get('task') or {}
